@@ -164,9 +164,28 @@ func c01Oracle(c corr.Case, impl []string) (string, int) {
 		if op == "h.readdir" || op == "h.readdirnames" {
 			memPages[t[1]] = append(memPages[t[1]], pageNames(impl[i])...)
 			osPages[t[1]] = append(osPages[t[1]], pageNames(osOut[i])...)
-			ma, oa := append([]string{}, memPages[t[1]]...), append([]string{}, osPages[t[1]]...)
-			sort.Strings(ma)
-			sort.Strings(oa)
+			// the two sides hand the entries out in different orders (the OS in directory order), and a handle
+			// may mix Readdir (name and kind) with Readdirnames (name only): compare the names, and the
+			// kind of a name wherever both sides reported one
+			split := func(es []string) (names []string, kind map[string]string) {
+				kind = map[string]string{}
+				for _, e := range es {
+					p := strings.SplitN(e, "/", 2)
+					names = append(names, p[0])
+					if len(p) == 2 {
+						kind[p[0]] = p[1]
+					}
+				}
+				sort.Strings(names)
+				return
+			}
+			ma, mk := split(memPages[t[1]])
+			oa, ok := split(osPages[t[1]])
+			for n, k := range mk {
+				if k2, both := ok[n]; both && k2 != k {
+					return fmt.Sprintf("listing through handle %s: entry %s is %q for MemMapFs and %q for the OS", t[1], n, k, k2), i
+				}
+			}
 			// after every page the *multiset so far* must have equal size; at EOF / full listing the sets must agree
 			full := atoi(t[2]) <= 0 || strings.HasSuffix(impl[i], "err:eof")
 			if full && strings.Join(ma, ",") != strings.Join(oa, ",") {
